@@ -62,4 +62,4 @@ func ghost_inDeque[K comparable, V any](d *Linked[K, V], n node.Node[K, V]) bool
 
 //@ func (*Linked).Len : C04 C05 C07
 //@   assumed A-deque
-//@   ensures [len-nonneg] result >= 0
+//@   ensures [len-bounded] result >= 0 && result < 1<<40
